@@ -39,6 +39,10 @@ CATALOGUE = [
      "        LOGGER.exception(\"Fatal exception occurred:\")\n        sys.exit(1)\n",
      "        LOGGER.exception(\"Fatal exception occurred:\")\n        sys.exit(0)\n",
      "top-level handler exits with status 0"),
+    ("m12-silent-exit", "C12", R + "rp2_main.py",
+     "        LOGGER.exception(\"Fatal exception occurred:\")\n        sys.exit(1)\n",
+     "        LOGGER.debug(\"Fatal exception occurred:\", exc_info=True)\n        sys.exit(1)\n",
+     "fatal errors only reach the DEBUG log: the run exits 1 without telling the user anything"),
     ("m12-method-conflict-warning", "C12", R + "rp2_main.py",
      "                \"use only one of them.\"\n            )\n            sys.exit(1)\n        elif not args.method",
      "                \"use only one of them.\"\n            )\n            years_2_accounting_method_names = configuration.years_2_accounting_method_names\n        elif not args.method",
